@@ -249,9 +249,7 @@ func (x *Exec) builtin(fr *frame, ins ssa.CallInstruction, b *ssa.Builtin, c *ss
 		case *types.Pointer:
 			return Val{ic(itoa(t.Elem().Underlying().(*types.Array).Len()))}, r
 		case *types.Map:
-			n := x.vc.S.freshConst("maplen", false)
-			x.vc.S.fact(r, sx("<=", "0", n))
-			return Val{ic(n)}, r
+			return Val{ic(x.vc.mapFamily(t).lenTerm(x.vc, st, args[0][0].T))}, r
 		case *types.Chan:
 			n := x.vc.S.freshConst("chanlen", false)
 			x.vc.S.fact(r, sx("<=", "0", n))
